@@ -1,4 +1,4 @@
 From Coq Require Import Extraction ExtrOcamlBasic.
 From Dryoc Require Import Extract.Dispatch.
 Extraction Language OCaml.
-Extraction "model.ml" Dispatch.run.
+Extraction "model.ml" Dispatch.dispatch.
